@@ -38,6 +38,18 @@ CLAIMED = {
              "claimed; until then assumed), grid extents >= 2R+1 (smaller grids: bounded native runs only).",
         technique="symbolic execution of the real simulator step with callee contract for the Poisson solve + exact polynomial identity",
         ref="5-C01"),
+    "C03": dict(
+        text="Contract-based deductive proof of the SophT side of the unbounded solvers for all grid sizes and domain lengths: "
+             "Green's function buffer equals the free-space Green's function sampled at even-reflected cell separations with the "
+             "documented self-cell value; solve() transforms exactly the zero-padded right-hand side, hands the exact complex "
+             "product with dx^d to the backward plan, reads the solution from the same corner box; every work buffer arbitrary "
+             "at entry (independence of earlier solves); vector solve = three scalar solves; rhs untouched. FFTW assumed by "
+             "contract; a BOUNDED native stand-in compares the real solver with the direct O(N^2) convolution on small grids.",
+        note=TRUST + " Assumed: FFTW/pyfftw plan contract, lemma M4 (Hockney-Eastwood doubling). The bounded native stand-in "
+             "(odd/even, non-cubic grids up to 5x6x7, two consecutive solves) backs exactly these two assumptions and is not "
+             "counted as proved.",
+        technique="symbolic execution of the real solver classes with np rebound and an FFT contract stub + normaliser/z3; bounded native comparison",
+        ref="5-C03"),
     "C04": dict(
         text="Contract-based deductive proof of the conservation FORM from the public closures (single-valued ENO3 face flux in "
              "every upwind branch, every axis, 2-D/3-D; diffusion and curl-type forcing updates as telescoping differences), all "
